@@ -45,7 +45,7 @@ Decision(variant, v) ==
     ELSE IF variant = "fixed" /\ (Dangerous(v) \/ Effective(v).timeout = "negative") THEN "rejected"
     ELSE "accepted"
 
-Steps == <<"fetch", "render", "load", "open", "feed">>
+Steps == <<"fetch", "render", "load", "open", "feed", "open_untyped", "feed_empty">>   \* the last two: links whose media type says nothing usable; a feed that lists nothing
 Crashes(v, step) ==
     LET e == Effective(v) IN
     CASE step = "fetch" -> e.cache \in {"negative", "zero"}
